@@ -134,6 +134,51 @@ CHECKS = {
         note="cleared events read per closing update; ages near the one-hour boundary not generated (wall-clock granularity)",
         design="4/C20",
     ),
+    "C02": dict(
+        category="exploration",
+        technique="Hypothesis rule-based state machine over a stepped real FlumineSimulation with before/after snapshot "
+                  "equality for refused requests and package accounting for accepted ones (incl. bulk transactions around "
+                  "the 200/60/60/60 limits)",
+        text="Thousands of generated request / market-event histories; every refused place / cancel / update / replace (by a "
+             "default, client or custom control, or by the order's state) must leave order, trade, blotter views and runner "
+             "context bit-for-bit unchanged and send nothing; every accepted request appears in exactly one package of the right "
+             "kind, size and market version, in request order, with nothing left pending. Held on everything explored.",
+        note="simulated execution world; Betfair-live/Betdaq share the Transaction code and are exercised by C11/C12 on the live double",
+        design="4/C02",
+    ),
+    "C03": dict(
+        category="exploration",
+        technique="Hypothesis rule-based state machine (stepped simulation) feeding every recorded _update_status call to the "
+                  "documented lifecycle automaton, plus generated call sequences on BetfairOrder / BetdaqOrder objects",
+        text="Strategy requests on orders in any status interleaved with fills, suspensions, removals, in-play and closure, with "
+             "directed race rules (a request in flight while the order completes for another reason); legal transitions, request "
+             "guards (accepted only when executable with bet id and compatible type), at most one undelivered package per order "
+             "and finality after completion. Held on everything explored.",
+        note="finality judged at step (handler) boundaries; matched size may change after completion only through a runner removal (C09)",
+        design="4/C03",
+    ),
+    "C10": dict(
+        category="exploration",
+        technique="Hypothesis rule-based state machine (stepped simulation) with an independent recount of every runner context "
+                  "from the orders after each step and limit / cool-down oracles at each accepted or refused placement",
+        text="live trades == placed trades with an order not complete, trades == distinct trades, trade COMPLETE iff all orders "
+             "complete, no trade left PENDING, max_trade_count / max_live_trade_count / place and reset cool-downs honoured, never "
+             "locked out of a runner whose orders all completed. One recorded genuine defect is reported as KNOWN-FINDING. "
+             "Held otherwise on everything explored.",
+        note="orders are never added to an already completed trade (only sanctioned via pending_orders, which is outside the property); "
+             "forced placements exempt a runner from the limit clauses",
+        design="4/C10",
+    ),
+    "C15": dict(
+        category="exploration",
+        technique="Hypothesis rule-based state machine (stepped simulation, 1-3 strategies, 1-2 clients, handicap lines) with a "
+                  "shadow list of accepted orders compared with every blotter view and filter after each step",
+        text="Exactly-once membership in the blotter and each view, identity of lookups by id and bet id (replacement orders), "
+             "live list contains every non-complete order exactly once and never regains one, all 1- and 2-subsets of status "
+             "filters with and without matched_only. Held on everything explored.",
+        note="adoption from the order stream is covered by C11",
+        design="4/C15",
+    ),
 }
 
 NOT_BUILT_REASON = "check not built yet (build in progress; see DESIGN.md section 4)"
